@@ -10,7 +10,7 @@ import (
 	"github.com/paulmach/osm"
 )
 
-// C15 — applying updates. Ops (coordinates are integers k meaning k*0.5 degrees, times are unix seconds):
+// C15 — applying updates. Ops (coordinates are integers k meaning k*0.5 degrees, times are quarter seconds since the epoch):
 //
 //	way|rel apply <t> N <key:ver:cs:lat:lon:orient>... U <idx:ver:ts:cs:lat:lon:rev>...
 //	way|rel compose <t1> <t2> N ... U ...
@@ -68,7 +68,15 @@ func c15Parse(f []string) (cs []c15Child, us []c15Upd, ok bool) {
 	return cs, us, true
 }
 
-func c15Time(ts int64) time.Time { return time.Unix(ts, 0).UTC() }
+// the time unit of the ops is a quarter of a second: update times and query times fall inside one second as commit
+// times do, and "at or before t" is an exact comparison, not one of whole seconds. (The model compares integers;
+// the unit is the harness's business.)
+func c15Time(ts int64) time.Time {
+	sec := ts >> 2
+	return time.Unix(sec, (ts-sec<<2)*250000000).UTC()
+}
+
+func c15Stamp(t time.Time) int64 { return t.Unix()<<2 + int64(t.Nanosecond())/250000000 }
 
 func c15Updates(us []c15Upd) osm.Updates {
 	var out osm.Updates
@@ -118,7 +126,7 @@ func c15ShowState(err error, children []c15Child, pending osm.Updates) string {
 		cs = append(cs, fmt.Sprintf("%d:%d:%d:%d:%d:%d", c.key, c.ver, c.cs, c.lat, c.lon, c.orient))
 	}
 	for _, u := range pending {
-		ps = append(ps, fmt.Sprintf("%d:%d:%d", u.Index, u.Version, u.Timestamp.Unix()))
+		ps = append(ps, fmt.Sprintf("%d:%d:%d", u.Index, u.Version, c15Stamp(u.Timestamp)))
 	}
 	return "err=" + e + " C " + strings.Join(cs, " ") + " P " + strings.Join(ps, " ")
 }
@@ -309,7 +317,7 @@ func c15Exec(op string) (string, *Violation) {
 					viol = &Violation{Signature: "pending-wrong", Text: fmt.Sprintf("%d pending updates, expected %d", len(gotP), len(wantP))}
 				} else {
 					for i := range gotP {
-						if gotP[i].Index != wantP[i].idx || int64(gotP[i].Version) != wantP[i].ver || gotP[i].Timestamp.Unix() != wantP[i].ts {
+						if gotP[i].Index != wantP[i].idx || int64(gotP[i].Version) != wantP[i].ver || c15Stamp(gotP[i].Timestamp) != wantP[i].ts {
 							viol = &Violation{Signature: "pending-order", Text: fmt.Sprintf("pending[%d] = %v expected %v", i, gotP[i], wantP[i])}
 							break
 						}
